@@ -88,6 +88,19 @@ package clause
 //@   min-sites 1
 //@   assert not-a-valuer: !is(arg0, driver.Valuer) [C01]
 
+//@ # ---------- C01: a named argument that is present is bound, whatever its value ----------
+//@ # "@name" is written back as text only when the name is not among the arguments; a present name with a nil value
+//@ # is bound as NULL (presence is the map's comma-ok, not the value).
+//@ ghost namedFound
+//@ event maplookup map
+//@   in clause.(NamedExpr).Build
+//@   do namedFound = ite(arg1, 1, 0)
+//@ site unbound-name-written-back-only-when-absent
+//@   match invoke Writer.WriteByte
+//@   in clause.(NamedExpr).Build
+//@   min-sites 2
+//@   assert at-sign-only-for-an-absent-name: arg0 == 64 ==> namedFound == 0 [C01]
+
 //@ # ---------- C15/C06: ORDER BY columns accumulate in call order, in the chain's own list ----------
 //@ # "In primary-key order" (FindInBatches, First, Last) rests on the ordering a chain asked for being the ordering
 //@ # it gets: earlier columns first, then the new ones, in a list that no sibling chain shares.
